@@ -178,7 +178,10 @@ namespace
             return {};
         }
         auto position = right.data<d_array>();
-        position->check_type(runtime, t_scalar(), 3);
+        if (!position->check_type(runtime, t_scalar(), 3))
+        {
+            return {};
+        }
         auto inner = veh->value();
         inner->position({
             position->at(0).data<d_scalar, float>(),
@@ -211,7 +214,10 @@ namespace
             return {};
         }
         auto velocity = right.data<d_array>();
-        velocity->check_type(runtime, t_scalar(), 3);
+        if (!velocity->check_type(runtime, t_scalar(), 3))
+        {
+            return {};
+        }
         auto inner = veh->value();
         inner->velocity({
             velocity->at(0).data<d_scalar, float>(),
@@ -222,6 +228,11 @@ namespace
     }
     value domove_object_array(runtime& runtime, value::cref left, value::cref right)
     {
+        if (left.data<d_object>()->is_null())
+        {
+            runtime.__logmsg(err::ExpectedNonNullValueWeak(runtime.context_active().current_frame().diag_info_from_position()));
+            return {};
+        }
         auto obj = left.data<d_object>()->value();
         if (obj->is_vehicle())
         {
@@ -240,6 +251,11 @@ namespace
             if (!arr->at(i).is<t_object>())
             {
                 runtime.__logmsg(err::ExpectedArrayTypeMissmatch(runtime.context_active().current_frame().diag_info_from_position(), i, t_object(), arr->at(i).type()));
+                errflag = true;
+            }
+            else if (arr->at(i).data<d_object>()->is_null())
+            {
+                runtime.__logmsg(err::ExpectedNonNullValueWeak(runtime.context_active().current_frame().diag_info_from_position()));
                 errflag = true;
             }
             else if (arr->at(i).data<d_object>()->value()->is_vehicle())
